@@ -246,17 +246,24 @@ class Check:
             self.samples.append(sample)
 
     def violation(self, kind, payload, found_input):
+        """Record a violation; replay files are written by finish() (at most three, those that carry
+        a concrete failing input first)."""
         self.nviol = getattr(self, "nviol", 0) + 1
-        if len(self.violations) >= 3:      # keep at most three replays per run
-            return
+        if not hasattr(self, "_pending"):
+            self._pending = []
+        if len(self._pending) < 200:
+            payload = dict(payload)
+            payload.update({"property": self.pid, "kind": kind, "tier": self.tier, "seed": self.seed})
+            self._pending.append((0 if found_input else 1, len(self._pending), payload, found_input))
+
+    def _write_violations(self):
         d = VERIF / "replays" / self.pid
-        d.mkdir(parents=True, exist_ok=True)
-        path = d / f"{self.tier}_{self.seed}_{len(self.violations)}.json"
-        payload = dict(payload)
-        payload.update({"property": self.pid, "kind": kind, "tier": self.tier, "seed": self.seed,
-                        "replay_cmd": f"./check {self.pid} --replay {path}"})
-        path.write_text(json.dumps(payload, indent=1, default=str))
-        self.violations.append((str(path), "" if found_input else " no-failing-input-found"))
+        for _, _, payload, found_input in sorted(getattr(self, "_pending", []), key=lambda x: x[:2])[:3]:
+            d.mkdir(parents=True, exist_ok=True)
+            path = d / f"{self.tier}_{self.seed}_{len(self.violations)}.json"
+            payload["replay_cmd"] = f"./check {self.pid} --replay {path}"
+            path.write_text(json.dumps(payload, indent=1, default=str))
+            self.violations.append((str(path), "" if found_input else " no-failing-input-found"))
 
     def known(self, key, still_fails):
         for f in self.findings:
@@ -268,9 +275,10 @@ class Check:
 
     def finish(self, level_note, trusted_base, rule, checker_cmd, assumptions):
         broken = [(n, d) for (n, ok, d) in self.obligations if not ok]
-        if broken and not self.violations:
+        if broken and not getattr(self, "_pending", []):
             self.violation("broken-obligation",
                            {"broken": [{"name": n, "detail": d} for n, d in broken]}, False)
+        self._write_violations()
         ev = {
             "property_id": self.pid, "tier": self.tier, "seed": self.seed, "level": "proof",
             "coverage": {
